@@ -109,10 +109,13 @@ def enumerate_cases(tier):
              "s": {"base": ["c", "a", "b"], "equal": ["c", "a", "b"], "permuted": ["a", "b", "c"], "subset": ["c", "a"], "superset": ["c", "a", "b", "q"],
                    "overlapping": ["a", "z"], "disjoint": ["y", "z"], "interior": ["c", "m", "b"], "same-size-other": ["c", "a", "b_"], "falsy": ["c", "", "b"],
                    "float-between": ["c", "10", "b"]}}
-    for kind, tab in kinds.items():
-        for rel, ly in tab.items():
-            if rel == "base":
-                continue
+    combos = [(tab["base"], ly) for kind, tab in kinds.items() for rel, ly in tab.items() if rel != "base"]
+    # sorted axes that touch in exactly one label; a single (falsy) label next to longer axes
+    combos += [([0, 1, 2], [2, 3, 4]), ([2, 3, 4], [0, 1, 2]), ([4, 3, 2], [2, 1, 0]), (["a", "b", "c"], ["c", "d", "e"]), ([0.5, 1.5], [1.5, 2.5, 3.5]), ([1, 2], [2]), ([2], [1, 2]),
+               ([3, 1, 2], [0]), ([1, 2, 3], [0]), ([0], [1, 2, 3]), ([1.5, 2.5], [0.0]), (["c", "a"], [""]), ([""], ["c", "a"]), ([7], [0]), ([0], [7])]
+    for base_y, ly in combos:
+        for _ in (0,):
+            tab = {"base": base_y}
             for func in ("stack", "concatenate"):
                 for align, sort in ((False, False), (True, False), (True, True)):
                     for n_in, which in ((2, 1), (3, 1), (3, 2)):
